@@ -909,6 +909,9 @@ func runOnce(lines []string, unit time.Duration) (res caseResult) {
 			w.w, _ = strconv.Atoi(f[1])
 			w.m, _ = strconv.Atoi(f[2])
 			w.te = timed.NewTaskExecutor[int](w.w, timed.WithMaxQueueSize(w.m))
+			if w.m < 0 {
+				w.m = 0 // a negative option value means "no bound", like 0 (the books of the oracle know bounds only)
+			}
 			if n := w.te.WorkerCount(); n != w.w {
 				w.fail("harness", fmt.Sprintf("WorkerCount() = %d for an executor created with %d workers", n, w.w), map[string]string{"oracle": "worker-count"})
 			}
@@ -1285,7 +1288,7 @@ func runCaseLines(lines []string, unit time.Duration) caseResult {
 
 func genCase(rng *hx.Rng) []string {
 	W := hx.Pick(rng, []int{1, 1, 1, 2, 2, 3})
-	M := hx.Pick(rng, []int{0, 0, 0, 0, 1, 2, 3})
+	M := hx.Pick(rng, []int{0, 0, 0, -1, 1, 2, 3, 0, 0, 0, -3, 1, 2, 3}) // negative: an unusual option value, no bound
 	lines := []string{fmt.Sprintf("new %d %d", W, M)}
 	n := rng.Range(6, 13)
 	clock := 0
@@ -1294,7 +1297,7 @@ func genCase(rng *hx.Rng) []string {
 	var toRelease []int
 	var rawTags, trackedTags []int
 	shut := false
-	useArm := M == 0 && rng.Chance(1, 6)
+	useArm := M <= 0 && rng.Chance(1, 6)
 	armedOne := false
 	// instants far away from the session: some cases schedule one or two tasks centuries ahead (never due in the
 	// session; IgnorePendingTimeouts delivers them, CancelPendingElements drops them) and tasks long past (zero
@@ -1607,7 +1610,10 @@ func corpus() [][]string {
 		[]string{"new 2 0", "0 exec 1 10 9a plain", "2 exec 2 11 7u plain", "4 exec 1 12 7e plain", "6 exec 2 13 9w plain", "end 12"},
 		[]string{"new 1 2", "0 exec 1 10 5w block", "4 exec 2 11 9u plain", "6 exec 3 12 9e plain", "8 exec 1 13 9a plain", "10 cancel 2", "12 release 10", "end 16"},
 		[]string{"new 1 0", "0 arm 10", "2 add 10 5w plain", "4 add 11 9u plain", "6 ecancel 10", "8 release 10", "end 12"},
-		[]string{"new 1 0", "0 arm 10", "2 exec 1 10 5a plain", "4 exec 1 11 5e plain", "8 release 10", "end 12"})
+		[]string{"new 1 0", "0 arm 10", "2 exec 1 10 5a plain", "4 exec 1 11 5e plain", "8 release 10", "end 12"},
+		// an unusual option value: WithMaxQueueSize(-1) / (-2) is "no bound" - nothing is ever dropped
+		[]string{"new 1 -1", "0 exec 1 10 3 block", "4 exec 2 11 9 plain", "6 exec 3 12 7 plain", "8 add 13 11 plain", "10 cancel 2", "12 release 10", "end 16"},
+		[]string{"new 2 -2", "0 add 10 9 plain", "2 add 11 7 plain", "4 add 12 5 plain", "6 exec 1 13 9u plain", "end 12"})
 
 	return c
 }
@@ -1849,6 +1855,159 @@ func runBurst(r *rec, sub uint64, fl string, workers, k, reps int) {
 	r.Count("burst:" + fl)
 	r.CountN("stress-events", len(evs))
 	r.Nontrivial(fmt.Sprintf("burst-%s-%d-%d", fl, workers, k))
+}
+
+// runCbShutdown: Executor.Shutdown called from inside a callback.  k tasks 2 ms apart; the callback of the second one
+// calls te.Shutdown(flags..., DontWaitForShutdown) (wait == false), or te.Shutdown(flags...) without it (wait == true:
+// that call waits for the WaitGroup, i.e. for its own worker, and never returns - by design; with two or more workers
+// the others must go on all the same).  After the call (wait == false) the callback tries ExecuteAt (must be refused)
+// and Cancel of the last identifier.  Whatever was pending when Shutdown was called is delivered exactly once at its
+// time (no flag), at once (IgnorePendingTimeouts), or dropped (CancelPendingElements - then it never runs, or runs once
+// not before its time if a poller held it past its time); a task with Cancel(id) = true never runs; nothing runs
+// twice; a later Shutdown(DontWaitForShutdown) from outside returns.  The trace is also judged by okLog.
+func runCbShutdown(r *rec, sub uint64, fl string, workers int, wait bool, reps int) {
+	r.Case(sub)
+	op := fmt.Sprintf("cbshutdown %s %d %v %d", fl, workers, wait, reps)
+	flags := []timed.ShutdownFlag{}
+	if strings.Contains(fl, "c") {
+		flags = append(flags, timed.CancelPendingElements)
+	}
+	if strings.Contains(fl, "i") {
+		flags = append(flags, timed.IgnorePendingTimeouts)
+	}
+	if strings.Contains(fl, "p") {
+		flags = append(flags, timed.PanicOnModificationsAfterShutdown)
+	}
+	if !wait {
+		flags = append(flags, timed.DontWaitForShutdown)
+	}
+	const k = 5
+	var evs []string
+	var fails []finding
+	x := 0
+	for rep := 0; rep < reps; rep++ {
+		te := timed.NewTaskExecutor[int](workers)
+		time.Sleep(time.Millisecond)
+		base := time.Now().Add(2 * time.Millisecond)
+		var mu sync.Mutex
+		var loc []string
+		us := func(t time.Time) int64 { return max(t.Sub(base).Microseconds(), 0) }
+		type bt struct {
+			x, id      int
+			due        time.Time
+			runs       int
+			cancelTrue bool
+		}
+		ts := make([]*bt, k)
+		var sdAt time.Time // when the callback called Shutdown (zero: not yet)
+		var refusedOK, sdReturned atomic.Bool
+		for i := 0; i < k; i++ {
+			x++
+			ts[i] = &bt{x: x, id: i + 1, due: base.Add(time.Duration(i) * 2 * time.Millisecond)}
+		}
+		for i, t := range ts {
+			i, t := i, t
+			mu.Lock()
+			loc = append(loc, fmt.Sprintf("sched %d %d %d", t.x, t.id, us(t.due)))
+			mu.Unlock()
+			te.ExecuteAt(t.id, func() {
+				now := time.Now()
+				mu.Lock()
+				t.runs++
+				loc = append(loc, fmt.Sprintf("run %d %d", t.x, us(now)))
+				if now.Before(t.due) && !(strings.Contains(fl, "i") && !sdAt.IsZero()) {
+					fails = append(fails, finding{"never-early", fmt.Sprintf("cbshutdown: task %d ran %v before its time (IgnorePendingTimeouts given: %v, Shutdown called: %v)", t.id, t.due.Sub(now), strings.Contains(fl, "i"), !sdAt.IsZero()), map[string]string{"oracle": "early", "mode": "cbshutdown"}, true})
+				}
+				if t.cancelTrue {
+					fails = append(fails, finding{"cancel-honoured", fmt.Sprintf("cbshutdown: task %d ran although Cancel(%d) had returned true", t.id, t.id), map[string]string{"oracle": "ran-after-cancel-true", "mode": "cbshutdown"}, true})
+				}
+				mu.Unlock()
+				if i != 1 {
+					return
+				}
+				// the event goes into the trace before the call, the time is taken before it too (what happens after
+				// the first step of Shutdown is "after the shutdown")
+				mu.Lock()
+				sdAt = time.Now()
+				loc = append(loc, fmt.Sprintf("shutdown %d %d", b2i(strings.Contains(fl, "c")), b2i(strings.Contains(fl, "i"))))
+				mu.Unlock()
+				te.Shutdown(flags...) // wait == true: never returns
+				sdReturned.Store(true)
+				var h *timed.ScheduledTask
+				p := hx.Safely(func() { h = te.ExecuteAt(9, func() {}, time.Now()) })
+				refusedOK.Store(h == nil && (p != "") == strings.Contains(fl, "p"))
+				last := ts[k-1]
+				mu.Lock()
+				ranBefore := last.runs
+				mu.Unlock()
+				res := te.Cancel(last.id)
+				mu.Lock()
+				loc = append(loc, fmt.Sprintf("cres %d %v %d", last.id, res, last.x))
+				if res {
+					last.cancelTrue = true
+					if ranBefore > 0 || last.runs > 0 {
+						fails = append(fails, finding{"cancel-result", fmt.Sprintf("cbshutdown: Cancel(%d) returned true for a task that had run", last.id), map[string]string{"oracle": "cancel-true-nothing-pending", "mode": "cbshutdown"}, true})
+					}
+				}
+				mu.Unlock()
+			}, t.due)
+		}
+		// everything that must run has run, or 2 s
+		need := func() (missing int) {
+			mu.Lock()
+			defer mu.Unlock()
+			for _, t := range ts {
+				if t.runs == 0 && !t.cancelTrue && !(strings.Contains(fl, "c") && t.id > 2) {
+					missing++
+				}
+			}
+
+			return
+		}
+		deadline := time.Now().Add(2 * time.Second)
+		for (need() > 0 || (!wait && !sdReturned.Load())) && time.Now().Before(deadline) {
+			time.Sleep(time.Millisecond)
+		}
+		time.Sleep(3 * time.Millisecond) // a second run of something would come now
+		if n := need(); n > 0 {
+			fails = append(fails, finding{"eventually-delivered", fmt.Sprintf("cbshutdown: %d task(s) pending when a callback called Shutdown(%s) (waiting for itself: %v, %d workers) never ran although neither cancelled nor dropped", n, fl, wait, workers), map[string]string{"oracle": "missing-delivery", "mode": "cbshutdown"}, true})
+		}
+		if !wait {
+			if !sdReturned.Load() {
+				fails = append(fails, finding{"shutdown-returns", fmt.Sprintf("cbshutdown: Shutdown(%s, DontWaitForShutdown) called from a callback did not return", fl), map[string]string{"oracle": "shutdown-hang", "mode": "cbshutdown"}, true})
+			} else if !refusedOK.Load() {
+				fails = append(fails, finding{"harness", fmt.Sprintf("cbshutdown: ExecuteAt after Shutdown(%s) from a callback was not refused (nil, panic exactly with the panic flag)", fl), map[string]string{"oracle": "not-refused", "mode": "cbshutdown"}, true})
+			}
+		}
+		// a later Shutdown from outside that does not wait must return at once (wait == true: one worker is inside
+		// Shutdown forever, so a waiting call would not return either - by design)
+		if !within(3*time.Second, func() { hx.Safely(func() { te.Shutdown(timed.DontWaitForShutdown) }) }) {
+			fails = append(fails, finding{"shutdown-returns", "cbshutdown: a second Shutdown(DontWaitForShutdown) did not return", map[string]string{"oracle": "shutdown-hang", "mode": "cbshutdown-second"}, true})
+		}
+		mu.Lock()
+		for _, t := range ts {
+			if t.runs > 1 {
+				fails = append(fails, finding{"at-most-once", fmt.Sprintf("cbshutdown: task %d ran %d times", t.id, t.runs), map[string]string{"oracle": "double-run", "mode": "cbshutdown"}, true})
+			}
+		}
+		evs = append(evs, loc...)
+		mu.Unlock()
+	}
+	r.Line(op, "done")
+	for _, e := range evs {
+		r.Line("ev "+e, "ok")
+	}
+	r.Line("check", "accept")
+	seen := map[string]bool{}
+	for _, f := range fails {
+		if !seen[f.oracle+f.sig["oracle"]] {
+			seen[f.oracle+f.sig["oracle"]] = true
+			r.Fail(f.oracle, f.detail, f.sig)
+		}
+	}
+	r.Count("cbshutdown:" + fl + map[bool]string{true: ":waits-for-itself", false: ""}[wait])
+	r.CountN("stress-events", len(evs))
+	r.Nontrivial(fmt.Sprintf("cbshutdown-%s-%d-%v", fl, workers, wait))
 }
 
 // runAddRace: forced schedule through the verif hook in Queue.Add.  ExecuteAt passes the shutdown check, then
@@ -2918,6 +3077,8 @@ func execDescriptor(j job, unit time.Duration) *rec {
 		runStress(r, j.Sub, f[1], at(2), at(3), at(4))
 	case len(f) == 5 && f[0] == "burst":
 		runBurst(r, j.Sub, f[1], at(2), at(3), at(4))
+	case len(f) == 5 && f[0] == "cbshutdown":
+		runCbShutdown(r, j.Sub, f[1], at(2), f[3] == "true", at(4))
 	case len(f) == 3 && f[0] == "addrace":
 		runAddRace(r, j.Sub, at(1), at(2))
 	case len(f) == 5 && f[0] == "addburst":
@@ -3045,6 +3206,14 @@ func main() {
 			reps = v
 		}
 		stress("cancelrace %d %d", wk, reps)
+	}
+	for _, cfg := range []struct {
+		fl   string
+		wk   int
+		wait bool
+	}{{"-", 1, false}, {"-", 2, false}, {"i", 1, false}, {"c", 2, false}, {"ci", 1, false}, {"p", 2, false}, {"ip", 3, false},
+		{"-", 2, true}, {"i", 3, true}, {"c", 2, true}} {
+		stress("cbshutdown %s %d %v %d", cfg.fl, cfg.wk, cfg.wait, 4*r.Scale)
 	}
 	stress("qpanic %d", 2*r.Scale)
 	stress("qseqs %d", 150*r.Scale)
